@@ -8,7 +8,7 @@ import sys
 
 pid = sys.argv[1]
 extra = sys.argv[2:]
-wt = f"/tmp/seed5/{pid}"
+wt = os.path.join(os.environ.get("SEED_ROOT", "/tmp/seed5"), pid)
 env = dict(os.environ, PYTHONPATH=wt)
 diff = subprocess.run(["git", "-C", wt, "diff", "--", "scoda"], capture_output=True, text=True).stdout
 assert diff.strip(), "no change applied in the worktree"
@@ -27,6 +27,6 @@ if "56 passed" not in suite or w.returncode == 0 or wo.returncode != 0:
 import shutil
 shutil.copy(f"{wt}/_seed/demo.py", f"{wt}/demo.py")
 meta = json.load(open(f"{wt}/_seed/meta.json"))
-r = subprocess.run(["/venv/bin/python", "/verif/tools/keep_mutant.py", wt, f"{pid}_agent5", pid, meta.get("summary", ""), meta.get("needs", ""), confirm,
+r = subprocess.run(["/venv/bin/python", "/verif/tools/keep_mutant.py", wt, f"{pid}_agent" + os.environ.get("SEED_ROUND", "5"), pid, meta.get("summary", ""), meta.get("needs", ""), confirm,
                     pid] + extra, capture_output=True, text=True)
 print(r.stdout[-1500:], r.stderr[-800:])
